@@ -154,7 +154,7 @@ func (c *SumCopyCommand) sumCopyItem(item string, tow io.Writer) error {
 		return nil
 	}
 
-	if err := updateFileDataWithPointsList(destDB, srcPlDif, now); err != nil {
+	if err := updateDestWithDiff(destDB, srcTsList, srcPlDif, c.From, until, now, true); err != nil {
 		return err
 	}
 
